@@ -374,6 +374,18 @@ def run_reject_case(a):
             argv += ["-p", "./does-not-exist"]
         elif kind == "missing-project-file":
             cfg = {"project_path": "./does-not-exist"}
+        elif kind.startswith(("unreachable-project-", "init-unreachable-project-")):
+            # a project path that does not exist for a reason other than "no such entry": below a regular file, through a
+            # symbolic link that leads to itself, with a component longer than any file name can be
+            open(os.path.join(app, "blocker.txt"), "w").write("a regular file")
+            os.symlink("loop", os.path.join(app, "loop"))
+            bogus = {"below-a-file": "./blocker.txt/src", "through-a-link-loop": "./loop/src", "overlong-component": "./" + "x" * 300}[kind.split("project-")[1].rsplit("-", 1)[0]]
+            if kind.startswith("init-"):
+                pass
+            elif kind.endswith("-flag"):
+                argv += ["-p", bogus]
+            else:
+                cfg = {"project_path": bogus}
         elif kind == "missing-project-default":
             import shutil
             shutil.rmtree(os.path.join(app, "src-tauri"))
@@ -405,6 +417,8 @@ def run_reject_case(a):
                 argv += ["-v", "ZOD"]
             elif kind == "init-missing-project":
                 argv += ["-p", "./does-not-exist"]
+            elif kind.startswith("init-unreachable-project-"):
+                argv += ["-p", bogus]
             elif kind == "init-refused-existing-file":
                 if source == "-c":
                     open(os.path.join(app, "typegen.custom.json"), "w").write('{"project_path": "./src-tauri", "note": "mine"}')
@@ -604,6 +618,8 @@ def run(tier):
              for source in ("tauri.conf.json", "-c")]
     rjobs += [(cli, kind, source) for kind in ("empty-validation-file", "blank-validation-file", "empty-project-file", "blank-project-file") for source in ("tauri.conf.json", "-c")]
     rjobs += [(cli, kind, source) for kind in ("init-bad-validation", "init-bad-validation-case-variant", "init-missing-project", "init-refused-existing-file") for source in ("tauri.conf.json", "-c")]
+    rjobs += [(cli, "%sunreachable-project-%s-%s" % (pre, why, via), source) for why in ("below-a-file", "through-a-link-loop", "overlong-component")
+              for (pre, via) in (("", "flag"), ("", "file"), ("init-", "flag")) for source in ("tauri.conf.json", "-c")]
     rjobs += [(cli, kind, source) for kind in ("bad-validation-case-variant-flag", "bad-validation-case-variant-file", "bad-validation-case-variant-no-commands") for source in ("tauri.conf.json", "-c")]
     for (job, r) in zip(rjobs, common.pmap(run_reject_case, rjobs)):
         v.case(("reject", job[1], job[2]), nontrivial=True, sample={"kind": "rejection", "case": r["label"]} if len(v.samples) < 8 else None)
